@@ -36,7 +36,7 @@ SbfCheck(c, e) ==
                IN t <= e.in.H =>
                     /\ At(o.sbf, t) >= dm
                     /\ (t = 0 \/ At(o.sbf, t - 1) < dm)
-                    /\ (SP(s) <= 12 => t = ServiceTime(s, dm))
+                    /\ (SP(s) <= 40 => t = ServiceTime(s, dm))
 
 SupplyFails(e) == {c \in SbfChecks : ~SbfCheck(c, e)}
 
